@@ -25,8 +25,80 @@ META = {
 }
 
 
+def check_journal_contract(fx, rep):
+    """R3: the wrapper reads the value off the journal entry the instruction pushed, so the entry must
+    exist exactly when balance left the contract: JournaledState::selfdestruct pushes AccountDestroyed
+    (had_balance) when the account is destroyed (before Cancun, or created in this transaction),
+    BalanceTransfer(balance) when, from Cancun, a surviving contract names ANOTHER beneficiary, and
+    nothing when it names itself (EIP-6780: the balance stays)."""
+    from symx import Symx, Budget, render, lit_truth
+    import c15
+    f = fx.fns.get('revm::journaled_state::JournaledState::selfdestruct')
+    if f is None:
+        rep.undecided('R3-journal-contract', 'selfdestruct', 'JournaledState::selfdestruct not found')
+        return
+    rep.fn(f)
+    try:
+        rs = Symx(fx, max_paths=8000, snapshot_refs=True, pure={
+            'revm_primitives::specification::SpecId::enabled', 'revm_primitives::state::Account::is_created',
+            'core::cmp::PartialEq::ne', 'core::cmp::PartialEq::eq'}).run(f)
+    except Budget:
+        rep.undecided('R3-journal-contract', 'selfdestruct', 'path budget', f.where())
+        return
+    cells = {}
+    for r in rs:
+        if r.ret[0] == 'agg' and r.ret[2] == 'Err':
+            continue
+        a = {}
+        for (sv, lit, _f, _b) in r.lits:
+            txt = render(sv)
+            tv = lit_truth(lit)
+            if tv is None:
+                continue
+            if txt.startswith('ne(&arg2, &arg3)') or txt.startswith('ne(&arg3, &arg2)'):
+                a['other'] = tv
+            elif txt.startswith('eq(&arg2, &arg3)') or txt.startswith('eq(&arg3, &arg2)'):
+                a['other'] = not tv
+            elif txt.startswith('is_created('):
+                a['created'] = tv
+            elif txt.startswith('enabled(') and 'CANCUN' in txt:
+                a['cancun'] = tv
+        kinds = []
+        for e in r.events:
+            if e[0].endswith('Vec::push') and len(e[1]) > 1 and e[1][1][0] == 'agg' and e[1][1][1].endswith('JournalEntry'):
+                v = e[1][1][2]
+                if v in ('AccountDestroyed', 'BalanceTransfer'):
+                    kinds.append((v, c15.render_deep(e[1][1])))
+        for other in ([a['other']] if 'other' in a else [True, False]):
+            for created in ([a['created']] if 'created' in a else [True, False]):
+                for cancun in ([a['cancun']] if 'cancun' in a else [True, False]):
+                    cells.setdefault((other, created, cancun), set()).add(tuple(k for k, _t in kinds))
+        for k, t in kinds:
+            amount = 'had_balance: ' if k == 'AccountDestroyed' else 'balance: '
+            if amount not in t or '.info.balance' not in t.split(amount, 1)[1][:120]:
+                rep.violation('R3-journal-contract', 'selfdestruct:%s:amount' % k, 'the %s entry does not carry the contract\'s balance: %s' % (k, t[:120]), f.where())
+                return
+    bad = None
+    n = 0
+    for (other, created, cancun), got in sorted(cells.items()):
+        if cancun and not created:
+            want = ('BalanceTransfer',) if other else ()
+        else:
+            want = ('AccountDestroyed',)
+        n += 1
+        if got != {want}:
+            bad = 'with beneficiary %s the contract, created-in-tx=%s, Cancun=%s it journals %s, expected %s (the inspector reports the amount of that entry as the value that left the contract)' % (
+                'other than' if other else 'equal to', created, cancun, sorted(got), list(want) or 'no entry')
+            break
+    if bad or n < 8:
+        rep.violation('R3-journal-contract', 'selfdestruct', 'JournaledState::selfdestruct: %s' % (bad or 'only %d of 8 cells recognised' % n), f.where())
+    else:
+        rep.ok('R3-journal-contract', 'selfdestruct', 'entry kind per (beneficiary, created, Cancun): 8 cells')
+
+
 def run(ctx, rep):
     fx = ctx.facts('default')
+    check_journal_contract(fx, rep)
     r = insp.load(fx, rep)
     if r is None:
         return
